@@ -81,6 +81,20 @@ class RenderMonitor(Monitor):
             from vmon.snap import state_key
             if state_key(ev.pre) != state_key(ev.post):
                 self.tainted = True  # a raising call left a partial effect: reported by C09, once
+        elif ev.stage == "call" and not ev.ro and not self.tainted and self.ctx.case_idx % 3 == 0 \
+                and ev.post["flags"]["building"] and ev.post["chans"]:
+            # every state a history passes through can be sampled, not only the last one
+            seq = r.seq
+            if seq.is_register_mappable() and any(c["detmap"] is not None for c in ev.post["chans"].values()):
+                return
+            from pulser.sampler import sample
+            self.ctx.count("intermediate_states_sampled")
+            try:
+                sample(seq)
+            except Exception as e:
+                self.ctx.violation("sample-raises", f"sample(seq) raised {type(e).__name__}: {str(e)[:200]} after {ev.name}",
+                                   f"sample-raises:{type(e).__name__}")
+                self.tainted = True
 
     tainted = False
 
